@@ -135,7 +135,10 @@ def gen_cases(tier, seed, prop):
     cases = []
     if tier == "quick":
         # the world row always (the only row where every species coexists), the other hostile rows in rotation
-        sel = ["WOR"] + workload.zero_rows(seed, 3) + [i for i in workload.rotate(hostile, seed) if i != "WOR"][:13] + rnd.sample(isos, 10)
+        # (C06 also always runs the six rows whose meat-herd births are negative - the open finding - so that whatever else
+        # happens to those herds' books is seen next to it)
+        special = ["BLR", "GEO", "MLI", "MDA", "MKD", "BGR"] if prop == "C06" else []
+        sel = ["WOR"] + special + workload.zero_rows(seed, 3) + [i for i in workload.rotate(hostile, seed) if i != "WOR"][:13] + rnd.sample(isos, 10)
         sel = list(dict.fromkeys(sel))
         per = 4
     else:
